@@ -128,6 +128,24 @@ class Check:
 
     LENGTH_BOUND = 8
 
+    def interpretation_stats(self):
+        """what of the repository the abstract interpreter actually walked in this run: functions (with the number of interpretations), the
+        `if` statements reached and how many of them had both arms explored, the exploration guards that were applied"""
+        from .interp import Interp, size_threshold
+        from .repo import unparse
+        arms = list(Interp.arms.values())
+        one_armed = [f'{fn}: if {unparse(node.test, 60)} ({"then" if t else "else"} arm only)' for node, t, e, fn in arms if not (t and e)]
+        fns = sorted(Interp.fn_calls.items(), key=lambda kv: -kv[1])
+        return {
+            'functions': {k: v for k, v in fns[:60]},
+            'functions_total': len(fns),
+            'if_statements_reached': len(arms),
+            'if_statements_both_arms': sum(1 for _, t, e, _f in arms if t and e),
+            'one_armed_sample': one_armed[:25],
+            'size_threshold_branches_checked': sum(1 for node, *_ in arms if size_threshold(node.test) is not None),
+            'block_stride_sites_checked': len(Interp.strides),
+        }
+
     def check_length_branches(self):
         """The scenarios use series of bounded length.  A branch that compares a length / size with a constant above that bound and of which
         only one arm was ever reached means the code behaves differently for long series in a way no scenario looked at: the run cannot
@@ -176,6 +194,7 @@ class Check:
             'per_rule_instances': dict(sorted(self.rule_counts.items())),
             'analysed': self.repo.stats() if self._runner else Repo().stats(),
             'findings': [dict(rule=v['rule'], key=v['key'], status=v.get('status'), what=v['what']) for v in self.violations],
+            'interpreted': self.interpretation_stats(),
             'obligation_list': self.obligations[:120],
             'exhaustive': False,
             'notes': self.notes,
